@@ -113,10 +113,13 @@ class DateTimeArray(MutableSequence[DateTime]):
             start, stop, step = index.indices(len(self))
             selected_count = len(range(start, stop, step))
             new_entry_count = len(values)
-            if step > 1 and new_entry_count != selected_count:
+            if step != 1 and new_entry_count != selected_count:
                 raise invalid_arg_value(
                     "value", "iterable with the same length as the slice", value
                 )
+            if step == 1 and stop < start:
+                # An empty selection inserts at start, like list slice assignment.
+                stop = start
 
             if new_entry_count < selected_count:
                 # Shrink
